@@ -21,6 +21,10 @@ type ReadCase struct {
 	Reads  []RStep `json:"reads,omitempty"`
 	// EOFWith: the transport returns its last bytes together with io.EOF.
 	EOFWith bool `json:"eof_with,omitempty"`
+	// WriteDead: every write to the transport fails (with a plain error or a
+	// timeout) from the start, so no automatic reply gets out: reading is
+	// unaffected.  0 no, 1 plain error, 2 timeout.
+	WriteDead int `json:"write_dead,omitempty"`
 }
 
 func genReaderCfg(t *rapid.T) ConnCfg {
@@ -49,6 +53,7 @@ func genReadCase(t *rapid.T) ReadCase {
 	c.Chunks = genChunks(t, "chunks", total)
 	c.Reads = genReadProgram(t, c.R.ReadBuf, true, true)
 	c.EOFWith = rapid.Bool().Draw(t, "eof_with_last_bytes")
+	c.WriteDead = rapid.SampledFrom([]int{0, 0, 0, 0, 1, 2}).Draw(t, "write_dead")
 	return c
 }
 
@@ -189,6 +194,14 @@ func checkC03(c ReadCase, o *Obs) error {
 	}
 	tr.SetInput(model.Wire, c.Chunks)
 	tr.EOFWithData = c.EOFWith
+	if c.WriteDead != 0 {
+		kind := xport.FaultError
+		if c.WriteDead == 2 {
+			kind = xport.FaultTimeout
+		}
+		tr.SetWriteFault(&xport.WriteFault{K: 0, Kind: kind})
+		o.ClassIf(len(model.Ctl) > 0 || model.Close != nil, "write_side_dead_with_control_frames")
+	}
 	h := &handlerLog{failAt: -1, def: true}
 	h.install(conn)
 	lens := make([]int, len(model.Msgs))
